@@ -342,3 +342,99 @@ Proof.
   unfold sig_digits. cbn [p_mant p_ndigits]. rewrite Hval.
   apply ndigits_fuel_le. change (Z.of_nat 16) with 16%Z. destruct (r_neg (out_rendering c d l)); lia.
 Qed.
+
+(* ------------------------------------------------------------------ mpf_get_rdpe: the 53 leading bits, truncated *)
+Lemma trunc_abs : forall q, Z.abs (trunc q) = Qfloor (Qabs q).
+Proof.
+  intros [n d]. unfold trunc, Qfloor. rewrite Qabs_make. simpl Qnum; simpl Qden.
+  rewrite <- (Z.quot_abs n (Zpos d)) by lia. simpl Z.abs at 2.
+  apply Z.quot_div_nonneg; lia.
+Qed.
+
+Lemma trunc_sign : forall q, (0 <= q -> (0 <= trunc q)%Z) /\ (q <= 0 -> (trunc q <= 0)%Z).
+Proof.
+  intros [n d]. unfold trunc, Qle; simpl. split; intro H.
+  - apply Z.quot_pos; lia.
+  - rewrite <- (Z.opp_involutive n), Z.quot_opp_l by lia.
+    pose proof (Z.quot_pos (- n) (Zpos d) ltac:(lia) ltac:(lia)). lia.
+Qed.
+
+Lemma inject_Z_abs : forall z, Qabs (inject_Z z) == inject_Z (Z.abs z).
+Proof. intro z. unfold inject_Z. rewrite Qabs_make. reflexivity. Qed.
+
+Lemma mpf_get_rdpe_spec : forall x, ~ x == 0 ->
+  let '(m, e) := mpf_get_rdpe x in
+  1 # 2 <= Qabs m /\ Qabs m < 1 /\
+  Qabs (m * pow2 e) <= Qabs x /\ Qabs x - Qabs (m * pow2 e) < pow2 (- 52) * Qabs x /\
+  (0 <= x -> 0 <= m) /\ (x <= 0 -> m <= 0).
+Proof.
+  intros x Hnz. unfold mpf_get_rdpe.
+  destruct (Qeq_bool x 0) eqn:Hz; [apply Qeq_bool_iff in Hz; contradiction |].
+  destruct (bexp_spec x Hnz) as [Hlo Hhi]. set (ex := bexp x) in *.
+  set (y := x * pow2 (53 - ex)).
+  assert (Hp1 : 0 < pow2 (53 - ex)) by apply pow2_pos.
+  assert (Hy : Qabs y == Qabs x * pow2 (53 - ex)).
+  { unfold y. rewrite Qabs_Qmult, (Qabs_pos (pow2 (53 - ex))) by lra. reflexivity. }
+  assert (H52 : pow2 52 == pow2 (ex - 1) * pow2 (53 - ex)).
+  { rewrite <- pow2_add. replace (ex - 1 + (53 - ex))%Z with 52%Z by lia. reflexivity. }
+  assert (H53 : pow2 53 == pow2 ex * pow2 (53 - ex)).
+  { rewrite <- pow2_add. replace (ex + (53 - ex))%Z with 53%Z by lia. reflexivity. }
+  assert (Hy1 : inject_Z (2 ^ 52) <= Qabs y) by (change (inject_Z (2 ^ 52)) with (pow2 52); rewrite Hy, H52; nra).
+  assert (Hy2 : Qabs y < inject_Z (2 ^ 53)) by (change (inject_Z (2 ^ 53)) with (pow2 53); rewrite Hy, H53; nra).
+  pose proof (trunc_abs y) as Hta.
+  pose proof (Qfloor_le (Qabs y)) as Hf1. pose proof (Qlt_floor (Qabs y)) as Hf2.
+  assert (Hf3 : (2 ^ 52 <= Qfloor (Qabs y))%Z).
+  { rewrite <- (Qfloor_Z (2 ^ 52)). apply Qfloor_resp_le. exact Hy1. }
+  rewrite <- Hta in Hf1, Hf2, Hf3. rewrite inject_Z_plus in Hf2. change (inject_Z 1) with 1 in Hf2.
+  set (t := trunc y) in *.
+  assert (Hat : Qabs (inject_Z t) == inject_Z (Z.abs t)) by apply inject_Z_abs.
+  assert (Ht52 : inject_Z (2 ^ 52) <= inject_Z (Z.abs t)) by (rewrite <- Zle_Qle; exact Hf3).
+  assert (Hm53 : 0 < pow2 (- 53)) by apply pow2_pos.
+  assert (Hc1 : inject_Z (2 ^ 52) * pow2 (- 53) == 1 # 2) by reflexivity.
+  assert (Hc2 : inject_Z (2 ^ 53) * pow2 (- 53) == 1) by reflexivity.
+  assert (Habs_m : Qabs (inject_Z t * pow2 (- 53)) == inject_Z (Z.abs t) * pow2 (- 53)).
+  { rewrite Qabs_Qmult, Hat, (Qabs_pos (pow2 (- 53))) by lra. reflexivity. }
+  assert (Hpe : 0 < pow2 ex) by apply pow2_pos.
+  assert (Hscale : pow2 (- 53) * pow2 ex * pow2 (53 - ex) == 1).
+  { rewrite <- !pow2_add. replace (- 53 + ex + (53 - ex))%Z with 0%Z by lia. reflexivity. }
+  assert (Habs_v : Qabs (inject_Z t * pow2 (- 53) * pow2 ex) == inject_Z (Z.abs t) * (pow2 (- 53) * pow2 ex)).
+  { rewrite Qabs_Qmult, Habs_m, (Qabs_pos (pow2 ex)) by lra. ring. }
+  set (T := inject_Z (Z.abs t)) in *. set (s := pow2 (- 53) * pow2 ex) in *.
+  assert (Hs : 0 < s) by (unfold s; nra).
+  assert (Hx : Qabs x == Qabs y * s).
+  { rewrite Hy. setoid_replace (Qabs x * pow2 (53 - ex) * s) with (Qabs x * (s * pow2 (53 - ex))) by ring.
+    rewrite Hscale. ring. }
+  assert (Hs52 : s == pow2 (- 52) * pow2 (ex - 1)).
+  { unfold s. rewrite <- !pow2_add. replace (- 53 + ex)%Z with (- 52 + (ex - 1))%Z by lia. reflexivity. }
+  assert (Hp52 : 0 < pow2 (- 52)) by apply pow2_pos.
+  split; [rewrite Habs_m; nra |]. split; [rewrite Habs_m; nra |].
+  split; [rewrite Habs_v, Hx; nra |].
+  split.
+  - rewrite Habs_v. apply Qlt_le_trans with s; [rewrite Hx; nra | rewrite Hs52; nra].
+  - destruct (trunc_sign y) as [Hs1 Hs2]. split; intro H0.
+    + assert (0 <= y) by (unfold y; nra). specialize (Hs1 H). fold t in Hs1.
+      assert (0 <= inject_Z t) by (change 0 with (inject_Z 0); rewrite <- Zle_Qle; exact Hs1). nra.
+    + assert (y <= 0) by (unfold y; nra). specialize (Hs2 H). fold t in Hs2.
+      assert (inject_Z t <= 0) by (change 0 with (inject_Z 0); rewrite <- Zle_Qle; exact Hs2). nra.
+Qed.
+
+(* format full prints every digit the stored precision warrants (mpf_out_str with n_digits = 0): no fixed margin over the
+   requested digits bounds it *)
+Lemma full_digits_unbounded : forall margin D : Z, exists precf : Z, (D + margin < max_digits Full 0 precf (prec_of_digits D))%Z.
+Proof.
+  intros margin D. set (k := Z.max 1 (D + margin)).
+  exists (64 * k)%Z. change (max_digits Full 0 (64 * k) (prec_of_digits D)) with (gmp_digit_cap (64 * k)). unfold gmp_digit_cap, gmp_prec.
+  assert (Hk : (1 <= k)%Z) by (unfold k; lia).
+  replace (Z.max 53 (64 * k)) with (64 * k)%Z by lia.
+  replace ((64 * k + 127) / 64)%Z with (k + 1)%Z.
+  2:{ apply Z.div_unique with 63%Z; lia. }
+  replace (64 * (k + 1 - 1))%Z with (64 * k)%Z by lia.
+  set (q := LOG10_2 * inject_Z (64 * k)).
+  assert (Hq : inject_Z k <= q).
+  { unfold q, LOG10_2. rewrite inject_Z_mult. change (inject_Z 64) with 64.
+    assert (0 < inject_Z k) by (change 0 with (inject_Z 0); rewrite <- Zlt_Qlt; lia). nra. }
+  assert (Hq0 : 0 <= q).
+  { eapply Qle_trans; [| exact Hq]. change 0 with (inject_Z 0). rewrite <- Zle_Qle. lia. }
+  rewrite (trunc_nonneg_floor q Hq0).
+  pose proof (Qfloor_resp_le _ _ Hq) as Hf. rewrite Qfloor_Z in Hf. unfold k in *. lia.
+Qed.
